@@ -200,6 +200,15 @@ func checkC19(gc *getCase) *CheckResult {
 		if view.Snap.RawQuery != "" {
 			res.violate("post_query", "c19:outbound:query", "POST to the backend carries a query string %q", view.Snap.RawQuery)
 		}
+		if strings.Contains(featureSig(sc, view, "request"), "rawframe") {
+			// an uncompressed frame of an enveloped client toward an un-enveloped backend: known finding
+			// D10, reported by C01/C02/C03/C09; nothing to do with the GET/POST decision
+			res.class("outbound_d10_region")
+		} else if clientGET {
+			for _, p := range view.Problems {
+				res.violate("post_invalid", "c19:outbound:invalid", "POST request to the backend (in place of a GET) is not valid: %s", p)
+			}
+		}
 	}
 	if cv.OK && (len(view.Msgs) != 1 || view.Msgs[0] == nil || canon(view.Msgs[0]) != canon(normRESTPresence(restBody(out), out.Sent.Msgs)[0])) {
 		if !(c.Form == FormREST) {
